@@ -344,6 +344,7 @@ func c06One(hid int, l []logEntry, rec *recorder) {
 				fmt.Fprintf(os.Stderr, "UNSTABLE query %s: (%d,%s) vs (%d,%s)\n", pre[j].Name, pre[j].Idx, pre[j].Res, pre2[j].Idx, pre2[j].Res)
 			}
 		}
+		desc := e.Desc + movedCheckTag(h, e)
 		applyEntry(h, e)
 		post := sh.Observe(h.Store(), qs)
 		obs := []M{}
@@ -353,9 +354,33 @@ func c06One(hid int, l []logEntry, rec *recorder) {
 				obs = append(obs, M{"q": pre[j].Name, "fam": strings.SplitN(pre[j].Name, ":", 2)[0], "i0": pre[j].Idx, "r0": pre[j].Res, "i1": post[j].Idx, "r1": post[j].Res, "fired": fired})
 			}
 		}
-		rec.emit(M{"h": hid, "i": i + 1, "idx": e.Idx, "desc": e.Desc, "reap": structs.MessageType(e.Type) == structs.TombstoneRequestType,
+		rec.emit(M{"h": hid, "i": i + 1, "idx": e.Idx, "desc": desc, "reap": structs.MessageType(e.Type) == structs.TombstoneRequestType,
 			"nq": len(qs), "obs": obs})
 	}
+}
+
+// movedCheckTag marks a register command that re-registers an EXISTING check id under another service of the node (or
+// turns a service check into a node check or back): an observation about command and pre-state, used only to name the
+// situation in a verdict's signature.
+func movedCheckTag(h *sh.H, e logEntry) string {
+	if structs.MessageType(e.Type) != structs.RegisterRequestType {
+		return ""
+	}
+	raw, _ := base64.StdEncoding.DecodeString(e.Data)
+	var req structs.RegisterRequest
+	if len(raw) < 2 || structs.Decode(raw[1:], &req) != nil {
+		return ""
+	}
+	checks := req.Checks
+	if req.Check != nil {
+		checks = append(structs.HealthChecks{req.Check}, checks...)
+	}
+	for _, c := range checks {
+		if _, old, _ := h.Store().NodeCheck(req.Node, c.CheckID, nil, req.PeerName); old != nil && old.ServiceID != c.ServiceID {
+			return " [moved-check]"
+		}
+	}
+	return ""
 }
 
 // ---------------------------------------------------------------- C07
